@@ -784,8 +784,10 @@ class DBUDSServer(UDSServer):
                 response = service.UDSResponse.parse_dynamic(unhexlify(response_pdu))
                 return response
 
-            logger.info("Reset ECU due to missing response")
-            self.state.reset()
+            # No reply was recorded: stay silent. The client that logged the rows does not touch its
+            # state when a request is not answered, so neither may the replaying server; otherwise
+            # all following rows (logged with the unchanged state) are no longer found.
+            logger.info("No response recorded for this request")
 
         return None
 
